@@ -1472,3 +1472,37 @@ def name_table_entries(fn: ast.AST) -> int:
             for child in ast.iter_child_nodes(node):
                 child._parent = node  # type: ignore[attr-defined]
     return count
+
+
+def attribute_held_in_local(fn: ast.AST, attr: str) -> int:
+    """`n = E; self.<attr> = n; .. n ..` is read as `self.<attr> = E; .. self.<attr> ..` (in place)
+    when the local n is bound once and the attribute is stored once: the local is the attribute"""
+    stores = [s for s in ast.walk(fn) if isinstance(s, ast.Assign) and len(s.targets) == 1 and isinstance(s.targets[0], ast.Attribute) and isinstance(s.targets[0].value, ast.Name) and s.targets[0].value.id == "self" and s.targets[0].attr == attr]
+    if len(stores) != 1 or not isinstance(stores[0].value, ast.Name):
+        return 0
+    n = stores[0].value.id
+    defs = [s for s in ast.walk(fn) if isinstance(s, ast.Assign) and len(s.targets) == 1 and isinstance(s.targets[0], ast.Name) and s.targets[0].id == n]
+    if len(defs) != 1 or sum(1 for x in ast.walk(fn) if isinstance(x, ast.Name) and x.id == n and isinstance(x.ctx, ast.Store)) != 1:
+        return 0
+    d, st = defs[0], stores[0]
+    par = getattr(d, "_parent", None)
+    seq = next((getattr(par, f) for f in ("body", "orelse", "finalbody") if isinstance(getattr(par, f, None), list) and any(z is d for z in getattr(par, f))), None)
+    if seq is None or not any(z is st for z in seq) or seq.index(st) != seq.index(d) + 1:
+        return 0
+    st.value = d.value
+    seq.remove(d)
+
+    class _S(ast.NodeTransformer):
+        def visit_Name(self, x):
+            if x.id == n and isinstance(x.ctx, ast.Load):
+                return ast.copy_location(ast.Attribute(value=ast.Name(id="self", ctx=ast.Load()), attr=attr, ctx=ast.Load()), x)
+            return x
+
+    for i, z in enumerate(seq):
+        if z is not st:
+            seq[i] = _S().visit(z)
+    ast.fix_missing_locations(fn)
+    for node in ast.walk(fn):
+        for child in ast.iter_child_nodes(node):
+            child._parent = node  # type: ignore[attr-defined]
+    return 1
